@@ -258,6 +258,7 @@ func C08(run *mon.Run) {
 	run.Assumptions = []string{"delivery model of DESIGN.md A.1", "ground truth fast path: a landed vector byte-equal to the vector a real dealer instance produced is taken to commit to the shares that instance produced (slow reference path on a sample and whenever bytes differ)", "only the implications the property lists are asserted (vector missing/late/malformed, > t complaints, honest complaint unanswered or wrongly answered)"}
 	dkgDrive(run, "C08")
 	c08PlainVSS(run)
+	dkgTorsionKernelVectors(run)
 	run.Require(run.Counter("must-disqualify") >= 30 && run.Counter("may-qualify") >= 30, "converse oracle saw too few Byzantine dealers in either class")
 	run.Require(run.Counter("plain-vss.must-fail") >= 100 && run.Counter("plain-vss.honest-ok") >= 4, "plain VSS grid too small")
 	for _, c := range []string{"cause.vector-missing-or-late", "cause.more-than-t-complaints", "cause.complaint-no-answer", "cause.complaint-wrong-answer"} {
